@@ -194,7 +194,12 @@ Definition step_resume (cfg : config) (chan : bool) (p : persist) (f : features)
         let '(w2, r, p2) := step_bind cfg chan (clear_sm p) f s' [SFailed] in (w ++ w2, r, p2)
     | _ => (w, Err false false, clear_sm p)
     end
-  else step_bind cfg chan p f s seen.
+  else
+    (* no resumption on this stream.  When the server does not offer stream management at
+       all, a session held from an earlier connection cannot be continued here: a new one
+       is bound, and the held state is discarded (stanzas of the new session must never be
+       counted into it). *)
+    step_bind cfg chan (if f_sm f then p else clear_sm p) f s seen.
 
 (* auth, then stream restart, then resume | bind ... *)
 Definition step_auth (cfg : config) (chan : bool) (p : persist) (f : features) (s seen : list sitem)
